@@ -29,7 +29,7 @@ def gates(tier):
         "shapes": {c: 5 * k for c in ["eps_arc", "eps_cycle", "cyclic", "acyclic", "multi_initial", "multi_final", "parallel_arcs",
                                       "unreachable_state", "dead_state", "empty_language", "sr:Q", "sr:Log", "sr:Boolean",
                                       "sr:MaxTimes", "sr:Real", "sr:Float", "oracle-crosscheck", "zero_weight_arc", "tiny_weight", "input:iterator", "input:list",
-                                      "order:total-first", "order:epsremove-first", "order:calls-first", "scale:big-automaton"]},
+                                      "order:total-first", "order:epsremove-first", "order:calls-first", "scale:big-automaton"]} | {"scale:long-strings-in-log-space": k},
         "min_hashseeds": 2,
     }
 
@@ -37,6 +37,15 @@ def gates(tier):
 def gen_case(rng, spec):
     from rv.gen import automata as GA
 
+    if rng.random() < 0.01:
+        # scale: strings of 200-400 tokens whose weights (1e-400 .. 1e-800) only exist in log space; two accepting paths
+        from fractions import Fraction as Fr
+
+        pw = Fr(1, rng.choice([100, 50, 1000]))
+        names = rng.choice([["p", "q"], [0, 1], [("s", 0), ("s", 1)]])
+        m = {"n": 2, "names": names, "alphabet": ["a", "b"], "start": [[0, Fr(1)], [1, Fr(1)]], "stop": [[0, Fr(1)], [1, Fr(1, 2)]],
+             "arcs": [[0, "a", 0, pw], [1, "a", 1, pw], [0, "b", 1, Fr(1, 2)]] + ([[1, "", 0, Fr(1, 4)]] if rng.random() < 0.3 else [])}
+        return {"m": m, "R": "Log", "maxlen": 2, "oseed": rng.randrange(1 << 30), "long": rng.randint(200, 400)}
     if rng.random() < 0.06:
         # scale: 8-14 states, 6-10 symbols, a state with many arcs, 3+ initial / final states; labels of accepting walks
         m = GA.gen_big_wfsa(rng, acyclic=rng.random() < 0.3)
@@ -64,6 +73,10 @@ def run_case(case, ctx):
     cls = GA.classify_wfsa(m)
     D = lib.dense_from_case(m, "Q" if R == "Log" else R)
     strings = GA.case_strings(m, case["maxlen"], case["oseed"])
+    if case.get("long"):
+        n = case["long"]
+        ctx.shape["scale:long-strings-in-log-space"] += 1
+        strings = strings + [("a",) * n, ("a",) * (n // 2) + ("b",) + ("a",) * (n - n // 2), ("b", "b") + ("a",) * n, ("a",) * (n - 7)]
     if m.get("big"):
         ctx.shape["scale:big-automaton"] += 1
     try:
@@ -90,6 +103,8 @@ def run_case(case, ctx):
     def same(have, w):
         if exact:
             return lib.same(R, have, w, exact=True, trunc=False)
+        if R == "Log":
+            return lib.same("Log", have, w)  # in log space: a weight of exp(-900) matters as much as one of 0.5
         return close2(lib.have_value(R, have), lib.want_value(R, w), 1e-8, 1e-12)
 
     import random as _random
